@@ -982,3 +982,6 @@ func (p *Prog) storeReaches(st *ssa.Store, load ssa.Instruction) bool {
 	}
 	return true
 }
+
+// InstrDominates reports whether a is executed before b on every path reaching b (same function).
+func InstrDominates(a, b ssa.Instruction) bool { return dominatesInstr(a, b) }
